@@ -1,0 +1,62 @@
+//go:build verif
+
+// Contracts for deductive verification (read by /verif/govc). Comment-only: this file adds no code.
+package keeper
+
+//@ store AccountAuth kv=did/AccountAuth/value/ key=did_AccountAuthKey val=github.com/SaoNetwork/sao/x/did/types.AccountAuth
+//@ accessor get (Keeper) GetAccountAuth AccountAuth(accountDid)
+//@ accessor set (Keeper) SetAccountAuth AccountAuth(accountAuth.AccountDid) accountAuth
+//@ accessor del (Keeper) RemoveAccountAuth AccountAuth(accountDid)
+//@ store AccountId kv=did/AccountId/value/ key=did_AccountIdKey val=github.com/SaoNetwork/sao/x/did/types.AccountId
+//@ accessor get (Keeper) GetAccountId AccountId(accountDid)
+//@ accessor set (Keeper) SetAccountId AccountId(accountId.AccountDid) accountId
+//@ accessor del (Keeper) RemoveAccountId AccountId(accountDid)
+//@ store AccountList kv=did/AccountList/value/ key=did_AccountListKey val=github.com/SaoNetwork/sao/x/did/types.AccountList
+//@ accessor get (Keeper) GetAccountList AccountList(did)
+//@ accessor set (Keeper) SetAccountList AccountList(accountList.Did) accountList
+//@ accessor del (Keeper) RemoveAccountList AccountList(did)
+//@ store Did kv=did/Did/value/ key=did_DidKey val=github.com/SaoNetwork/sao/x/did/types.Did
+//@ accessor get (Keeper) GetDid Did(accountId)
+//@ accessor set (Keeper) SetDid Did(did.AccountId) did
+//@ accessor del (Keeper) RemoveDid Did(accountId)
+//@ store DidBalances kv=did/DidBalances/value/ key=did_DidBalancesKey val=github.com/SaoNetwork/sao/x/did/types.DidBalances
+//@ accessor get (Keeper) GetDidBalances DidBalances(did)
+//@ accessor set (Keeper) SetDidBalances DidBalances(didBalances.Did) didBalances
+//@ accessor del (Keeper) RemoveDidBalances DidBalances(did)
+//@ store Kid kv=did/Kid/value/ key=did_KidKey val=github.com/SaoNetwork/sao/x/did/types.Kid
+//@ accessor get (Keeper) GetKid Kid(address)
+//@ accessor set (Keeper) SetKid Kid(kid.Address) kid
+//@ accessor del (Keeper) RemoveKid Kid(address)
+//@ store PastSeeds kv=did/PastSeeds/value/ key=did_PastSeedsKey val=github.com/SaoNetwork/sao/x/did/types.PastSeeds
+//@ accessor get (Keeper) GetPastSeeds PastSeeds(did)
+//@ accessor set (Keeper) SetPastSeeds PastSeeds(pastSeeds.Did) pastSeeds
+//@ accessor del (Keeper) RemovePastSeeds PastSeeds(did)
+//@ store PaymentAddress kv=did/PaymentAddress/value/ key=did_PaymentAddressKey val=github.com/SaoNetwork/sao/x/did/types.PaymentAddress
+//@ accessor get (Keeper) GetPaymentAddress PaymentAddress(did)
+//@ accessor set (Keeper) SetPaymentAddress PaymentAddress(paymentAddress.Did) paymentAddress
+//@ accessor del (Keeper) RemovePaymentAddress PaymentAddress(did)
+//@ store SidDocument kv=did/SidDocument/value/ key=did_SidDocumentKey val=github.com/SaoNetwork/sao/x/did/types.SidDocument
+//@ accessor get (Keeper) GetSidDocument SidDocument(versionId)
+//@ accessor set (Keeper) SetSidDocument SidDocument(sidDocument.VersionId) sidDocument
+//@ accessor del (Keeper) RemoveSidDocument SidDocument(versionId)
+//@ store SidDocumentVersion kv=did/SidDocumentVersion/value/ key=did_SidDocumentVersionKey val=github.com/SaoNetwork/sao/x/did/types.SidDocumentVersion
+//@ accessor get (Keeper) GetSidDocumentVersion SidDocumentVersion(docId)
+//@ accessor set (Keeper) SetSidDocumentVersion SidDocumentVersion(sidDocumentVersion.DocId) sidDocumentVersion
+//@ accessor del (Keeper) RemoveSidDocumentVersion SidDocumentVersion(docId)
+
+// payment address of a DID as recorded on chain
+//@ func (Keeper) GetCosmosPaymentAddress(ctx, did) (acc, err)
+//@   modifies nothing
+//@   ensures [C04.payaddr] err == nil <==> has(PaymentAddress, did)
+//@   ensures [C04.payaddr.value] err == nil ==> acc == addr(PaymentAddress[did].Address) && validAddr(PaymentAddress[did].Address)
+
+//@ func (Keeper) CreatorIsBoundToDid(ctx, creator, did) (err)
+//@   modifies nothing
+//@   ensures [C10.bound] err == nil <==> has(Did, "cosmos:" + ChainID + ":" + creator) && Did["cosmos:" + ChainID + ":" + creator].Did == did
+
+// credit a DID's on-chain balance and move the coins into the did module account (C06: ledger and bank move together)
+//@ func (Keeper) SendCoinsFromModuleToDidBalances(ctx, module, did, amount) (err)
+//@   requires has(DidBalances, did) ==> DidBalances[did].Did == did
+//@   modifies DidBalances[did], Bank
+//@   ensures [C06.did.ledger] err == nil && amount.Amount != 0 ==> has(DidBalances, did)
+//@       && DidBalances[did].Balance.Amount == (old(has(DidBalances, did)) ? old(DidBalances[did].Balance.Amount) : 0) + amount.Amount
